@@ -212,6 +212,31 @@ def r6_identity(ctx, steps=None, rule='R6c'):
     return n
 
 
+
+def r6_matcher_asked(ctx, fns, rule='R6c'):
+    """A step that builds a matcher and does more to a resource stream than hand it on must ask the matcher in the stream phase
+    too: deciding by some other recorded state (what the package phase stored for a name, a cache from an earlier run, whether a
+    per-resource list happens to be empty) selects differently from the selector as soon as that state and the selector disagree."""
+    run = ctx.run
+    n6 = 0
+    for f in fns:
+        seeds = ['package'] if f.name != 'process_resources' else [f.params[1]]
+        for rl in find_resloops(ctx.repo, ctx.res, f, seeds):
+            if rl.kind != 'for' or rl.fi is not f:     # a loop reached through super() belongs to the rows-level clause
+                continue
+            sigs, at = resloop_signature(ctx.repo, ctx.res, rl)
+            if any(a[0] in ('MATCH', 'EQ', 'IN') for s in sigs for a in s.atoms):
+                run.ok(rule, where(ctx.repo, rl.node), rl.fi.qualname + ' stream phase asks the matcher')
+                n6 += 1
+                continue
+            plain = all([k for k, _ in s.yields] == ['identity'] and not s.drains and not s.defers for s in sigs if s.term != 'raise')
+            run.check(plain, rule, where(ctx.repo, rl.node), rl.fi.qualname, 'stream phase asks the matcher',
+                      'the step builds a ResourceMatcher but its resource loop wraps / drops / replaces resources without asking it: '
+                      'which resources are touched is decided by something other than the selector')
+            n6 += 1
+    return n6
+
+
 def _identity_rows_callee(ctx, call, param, cls):
     """Is `call` = super().process_resource(param) resolving to a base implementation that re-yields every row through an
     un-overridden identity process_row?"""
